@@ -158,7 +158,28 @@ def model_check(run, module, cfg_text, name, workers=None, timeout=900, allow_vi
 
 def generate(run, module, cfg_text, name, fam=None, workers=None, timeout=900, cap=None, simulate=None, depth=None):
     """TLC as scenario generator: returns the list of scenario dicts printed with tag SCN."""
+    staged = False
+    m = re.search(r"^INIT Init\nNEXT Next\n(.*)^INVARIANTS ([^\n]*)\n", cfg_text, re.S | re.M)
+    if m and not simulate:
+        # TLC enumerates (and checks) initial states on one thread. The generators' state spaces are all initial
+        # states, so a wrapper module adds one step: stage 0 -> 1, and every law is evaluated at stage 1 only,
+        # i.e. by the worker that takes the state off the queue. Same states, same laws, all cores.
+        staged = True
+        invs = m.group(2).split()
+        wname = "PG_%s_%s" % (module, re.sub(r"\W", "_", name))
+        with open(run.path(wname + ".tla"), "w") as f:
+            f.write("---- MODULE %s ----\nEXTENDS %s\nVARIABLE stage\nPInit == Init /\\ stage = 0\n"
+                    "PNext == stage = 0 /\\ stage' = 1 /\\ UNCHANGED g\n" % (wname, module))
+            for i in invs:
+                f.write("P_%s == stage = 1 => %s\n" % (i, i))
+            f.write("====\n")
+        cfg_text = cfg_text.replace("INIT Init\nNEXT Next\n", "INIT PInit\nNEXT PNext\n").replace(
+            "INVARIANTS " + m.group(2), "INVARIANTS " + " ".join("P_" + i for i in invs))
+        module = wname
     out, st = tlc(run, module, cfg_text, name, workers=workers, timeout=timeout, simulate=simulate, depth=depth)
+    if staged and "distinct" in st:
+        st["distinct"] //= 2        # every scenario is one stage-0 and one stage-1 state
+        st["generated"] //= 2
     err = tlc_errors(out)
     if err and "is violated" not in out:
         raise Infra("TLC generator %s failed:\n%s" % (name, err))
